@@ -50,7 +50,7 @@ def build(root, nodes, seed):
             tgt = os.path.join(root, rel[ti])
             # the same destination can be spelled through a directory link: when the target lies inside a directory that an
             # EARLIER link points at, every other such link goes through that link (the text must survive as written)
-            via = [j for j in range(i) if nodes[j]["k"] == "link" and nodes[nodes[j]["t"] - 1]["k"] == "dir"
+            via = [j for j in range(i) if nodes[j]["k"] == "link" and nodes[j]["t"] > 0 and nodes[nodes[j]["t"] - 1]["k"] == "dir"
                    and rel[ti].startswith(rel[nodes[j]["t"] - 1] + "/")]
             if via and R.random() < 0.6:
                 j = via[0]
